@@ -6,6 +6,8 @@ from rules import si as r_si
 from rules import hdr_num as r_num
 from rules import sec as r_sec
 from rules import data as r_data
+from rules import hdr_grammar as r_gr
+from rules import wr_layout as r_wl
 
 PROPS = {}
 
@@ -68,7 +70,7 @@ prop("C19",
                 "lines that parse is not decided.")
 
 prop("C16",
-     [r_wrf.rule_frame, r_wrf.rule_standardize, r_wrf.rule_refresh, r_wrf.rule_determinism],
+     [r_wrf.rule_frame, r_wrf.rule_standardize, r_wrf.rule_refresh, r_wrf.rule_determinism, r_wl.rule_measure, r_wl.rule_copy_vers],
      "Frame condition by may-write effect summaries: the set of locations writer.write / LASFile.write may modify "
      "through the LASFile (access paths with aliasing through loop variables and properties, propagated over the "
      "resolved call graph; SectionItems/HeaderItem hooks by contract) is a subset of the documented side effects - "
@@ -79,7 +81,8 @@ prop("C16",
      "`index_initial[-1] != STOP` with no tolerance function in its provenance, the refreshed values derive from "
      "index[0], index[-1], index[1]-index[0], and unit alignment precedes the first output on every path "
      "(WR.REFRESH); no clock/random/environment/identity/set-order source or mutated default argument in the "
-     "writer's closure (WR.DETERMINISM). Not decided: byte-identity of two outputs and numerical truth of the "
+     "writer's closure (WR.DETERMINISM); widths are measured after normalisation so a second write sees the same "
+     "values as the first (WR.MEASURE); VERS is substituted only in a deep copy (WR.COPY-VERS). Not decided: byte-identity of two outputs and numerical truth of the "
      "written STRT/STOP/STEP (value level).",
      COMMON_ASSUMPTIONS + ["the SectionItems/HeaderItem mutation contract stated in sa/effects.py (verified against "
                            "las_items.py by the C13/C15 rules)", "external calls other than the catalogued numpy "
@@ -274,3 +277,78 @@ prop("C02",
      technique="affine normalisation of the line-window arithmetic + CFG path queries + provenance of the orientation predicate",
      level_text="Static guarantee that the two engines are handed the same window and the same line classification; "
                 "value-level identity of the parsed numbers is not decided.")
+
+prop("C04",
+     [r_gr.rule_grammar, r_gr.rule_select, r_gr.rule_strip],
+     "Grammar summary by path enumeration: configure_metadata_patterns is enumerated over all consistent outcomes of its "
+     "tests (same test text => same truth value), its pattern strings are constant-propagated, and each assembled "
+     "pattern list is compared - as a canonical regex structure from re._parser: character classes as sets over a probe "
+     "alphabet, repeat bounds, greedy/lazy, look-behind/look-ahead contents, group names, order - with the documented "
+     "form for that outcome: standard `MNEM.UNIT VALUE : DESCR` (name up to first '.', unit = optional digits+one "
+     "blank then non-blanks, greedy value up to the last ':'), ~Parameter (time-aware lazy value first, standard second), "
+     "no period before the first colon (`NAME : VALUE`), no colon, and ~Curves mnemonics with dots (HDR.GRAMMAR). The "
+     "selector tests are exactly the documented ones, with locals inlined - in particular the prefix before the FIRST "
+     "colon and '..' before the LAST colon, ~Curves only (HDR.SELECT). read_header_line tries the patterns in order "
+     "with re.match, stops at the first hit, strip()s every group and removes only leading/trailing dots from a unit "
+     "ending in '.' (HDR.STRIP). Not decided: that the backtracking matcher yields the intended split for every "
+     "conformant line (parse uniqueness), non-ASCII behaviour beyond the probe alphabet.",
+     COMMON_ASSUMPTIONS + ["re._parser is the definition of the regex dialect", "the documented forms table in "
+                           "rules/hdr_grammar.py (REF) is the oracle"],
+     "DESIGN.md section 4, C04",
+     technique="path enumeration + constant propagation of regex strings + structural (set-based) regex comparison with the documented grammar",
+     level_text="Static equality of the assembled grammar with the documented forms for every selector outcome; the "
+                "matcher's behaviour on concrete lines is not executed.")
+
+prop("C03",
+     [r_wl.rule_measure, r_wl.rule_order_key, r_wl.rule_orig_mnem, r_wl.rule_template, r_wl.rule_hdr_post,
+      r_wl.rule_ord_bijection, r_wl.rule_key_norm, r_gr.rule_grammar, r_gr.rule_select, r_gr.rule_strip, r_wrf.rule_standardize],
+     "Header write->read pairing clauses. Stage order per section in writer.write by CFG reachability: unit alignment / "
+     "refresh -> normalisation by standardize_value -> width measurement -> formatting, no later stage followed by an "
+     "earlier one (WR.MEASURE); every order lookup in the writer (5 call sites) is keyed by provenance by the item's "
+     "original_mnemonic, the name that is written (WR.ORDER-KEY, WR.ORIG-MNEM); the line template is "
+     "`<mnem ljust>.<unit><blanks><rhs> : <tail>` (WR.TEMPLATE), which is what the reader's grammar - decided "
+     "structurally for every selector outcome (HDR.GRAMMAR, HDR.SELECT, HDR.STRIP) - splits back into the same fields; "
+     "for both order constants the writer's (before-colon, after-colon) field choice is inverted by the reader's "
+     "assignment and both sides normalise the lookup key identically (ORD.BIJECTION, ORD.KEY-NORM); on the read side "
+     "only the name is case-mapped, by exactly upper()/lower() under the matching option value, brackets are stripped "
+     "from the unit only and the item is built as (name, unit, value, descr) (HDR.POST); standardize_value returns its "
+     "argument, 0 or '' (WR.STANDARDIZE). Not decided: equality of the recovered strings/numbers for all conformant "
+     "fields, ~Other text equality.",
+     COMMON_ASSUMPTIONS, "DESIGN.md section 4, C03",
+     technique="writer stage-order reachability + provenance of lookup keys + structural regex grammar + reader/writer field bijection",
+     level_text="Static agreement of the writer's layout with the reader's grammar and order handling (necessary "
+                "structural clauses); equality of concrete recovered fields is not executed.")
+
+prop("C12",
+     [r_wl.rule_ord_table, r_wl.rule_ord_bijection, r_wl.rule_key_norm, r_wl.rule_order_key, r_wl.rule_copy_vers,
+      r_wl.rule_measure],
+     "Order-table agreement: the folded defaults.ORDER_DEFINITIONS has every version the writer admits, all four "
+     "sections per version, well-formed (order, mnemonics) exceptions, 1.x ~Well = descr:value except STRT/STOP/STEP/NULL "
+     "and 2.x/3.0 = value:descr throughout; reader (SectionParser.__init__) and writer (get_section_order_function) "
+     "decode that same constant with the same convention ([0] default, [1:] pairs) and use the same section names "
+     "(ORD.TABLE), so the order agrees for every mnemonic because there is one table; per order constant the writer's "
+     "field placement is the inverse of the reader's assignment (ORD.BIJECTION); both sides apply the same key "
+     "normalisation (ORD.KEY-NORM) and the writer keys every lookup by original_mnemonic (WR.ORDER-KEY); the VERS item "
+     "for the requested version is stored only into deepcopy(las.version) (WR.COPY-VERS); widths are measured on final "
+     "values (WR.MEASURE). Not decided: equality of content read from two differently written files.",
+     COMMON_ASSUMPTIONS, "DESIGN.md section 4, C12",
+     technique="constant-table folding + decoder sibling check + field bijection + provenance of lookup keys",
+     level_text="Static agreement of reader and writer on the value/description order for every mnemonic and version; "
+                "equality of re-read content is not executed.")
+
+prop("C11",
+     [r_wl.rule_template, r_wl.rule_measure, r_wl.rule_order_key, r_wl.rule_orig_mnem, r_si.rule_session_only,
+      r_si.rule_pk_state, r_wrf.rule_refresh, r_wrf.rule_standardize, r_gr.rule_grammar],
+     "Necessary conditions of the read->write fixed point only: the writer's template puts '.' directly before the unit "
+     "and ' : ' before the tail, which the reader's structurally decided grammar splits back (WR.TEMPLATE, HDR.GRAMMAR) - "
+     "no fields migrating between unit, value and description requires also that widths are measured on final values and "
+     "that unit alignment precedes normalisation, otherwise the header lags one cycle (WR.MEASURE) and that orders are "
+     "looked up by the written name (WR.ORDER-KEY); no growing suffixes: the written mnemonic is original_mnemonic, "
+     "disambiguation never touches it, and the deep copy of ~Version that is written is rebuilt from original mnemonics "
+     "(WR.ORIG-MNEM, SI.SESSION-ONLY, PK.STATE); no drift of STRT/STOP/STEP: refresh decided exactly and taken from "
+     "index[0], index[-1], index[1]-index[0]; normalisation idempotent (WR.REFRESH, WR.STANDARDIZE). Not decided: "
+     "everything value-level (str() round trip of numbers, precision, the .1IN example).",
+     COMMON_ASSUMPTIONS, "DESIGN.md section 4, C11",
+     technique="reader/writer format agreement + writer stage-order reachability + state-coverage of the written copy",
+     level_text="Thin: only structural necessary conditions of the fixed point are decided; equality after k cycles on "
+                "arbitrary input is a runtime property and is not decided.")
